@@ -383,7 +383,7 @@ def _analyze(nm):
             continue
         tier = 0
         if z3.is_bool(e):
-            tier = 2 if (k == z3.Z3_OP_SELECT and e.arg(0).sort().domain() == RefS) else 1
+            tier = 2 if (k == z3.Z3_OP_SELECT and e.arg(0).sort().domain() == RefS) else 0
         if explicit is not None:
             tier = 0
         pats.append((e, vars_of(e, set()), tier))
